@@ -358,6 +358,8 @@ def decide(pid, tier, seed, replay, t0):
             got = impl.run(l["line"])
             fixed_checked += 1
             ok = (got == l["expect"]) if not l["expect"].endswith("*") else got.startswith(l["expect"][:-1])
+            if not ok and l.get("or_err") and got.startswith("err"):
+                ok = True       # a refusal satisfies the property here as well
             if not ok:
                 failures.append((l["line"], "fixed finding %s has returned: expected %s, real code gives %s" % (
                     f["id"], l["expect"], got)))
